@@ -358,6 +358,168 @@ Proof.
 Qed.
 
 (* ------------------------------------------------------------------ *)
+(** * Scripts that also set and clear breakpoints *)
+
+(** `break add a` / `break remove a` with an absolute address, as the property's scripts have them:
+    the reference's breakpoint set follows them (outside user space they are refused). *)
+Definition bpcmd (c : cmd) : Prop :=
+  match c with CBreakAdd (MAddr _) | CBreakRemove (MAddr _) => True | _ => False end.
+
+Definition ref_bps (st : state) (bps : list (N * bool)) (c : cmd) : option (list (N * bool)) :=
+  match c with
+  | CBreakAdd (MAddr a) =>
+      Some (if in_userspace st a then (if bp_has bps a then bps else bp_insert bps (a, false)) else bps)
+  | CBreakRemove (MAddr a) =>
+      Some (if in_userspace st a then (if bp_has bps a then bp_remove bps a else bps) else bps)
+  | _ => None
+  end.
+
+Definition stepping (c : cmd) : Prop := resuming c \/ bpcmd c.
+
+Fixpoint ref_script2 (feat : bool) (fuel : nat) (script : list cmd) (bps : list (N * bool)) (st : state)
+  : phase_end * list (N * bool) :=
+  match script with
+  | [] => (PEPaused st 0, bps)
+  | c :: rest =>
+      match ref_bps st bps c with
+      | Some bps' => ref_script2 feat fuel rest bps' st
+      | None =>
+          match ref_cmd feat bps fuel c st with
+          | PEPaused st' k => let (p, b) := ref_script2 feat fuel rest bps st' in (shift k p, b)
+          | PEStopped kind code s k => (PEStopped kind code s k, bps)
+          | PEFuel => (PEFuel, bps)
+          end
+      end
+  end.
+
+Lemma resuming_no_bps st bps c : resuming c -> ref_bps st bps c = None.
+Proof. destruct c; try contradiction; reflexivity. Qed.
+
+(** A breakpoint command is carried out in place: the debugger keeps waiting, with the new set. *)
+Lemma bpcmd_in_place env c d0 st : bpcmd c -> d_status d0 = WaitForAction ->
+  exists dr bps', ref_bps st (d_bps d0) c = Some bps' /\ run_command env c d0 st = CmdNone dr st /\
+                  d_status dr = WaitForAction /\ d_bps dr = bps' /\ cmd_cost c = 1.
+Proof.
+  intros Hc Hw. destruct c as [ | |count| | | |l|l v|m|m|text|text| | | | |m|m| ]; try contradiction;
+    destruct m as [a|off|name off]; try contradiction;
+    cbn [ref_bps run_command resolve_location]; unfold expect_userspace;
+    destruct (in_userspace st a);
+    change (d_bps (set_icount d0 0)) with (d_bps d0); change (d_bps (say (set_icount d0 0) L_OOB_ADDRESS)) with (d_bps d0);
+    try destruct (bp_has (d_bps d0) a);
+    eexists; eexists; (split; [reflexivity|]); (split; [reflexivity|]); repeat split; exact Hw.
+Qed.
+
+Theorem script2_session env fuelR : forall cs tail d0 st n,
+  Forall stepping cs -> d_status d0 = WaitForAction ->
+  match ref_script2 (e_feat env) fuelR cs (d_bps d0) st with
+  | (PEPaused st' k, bps') =>
+      exists j d0' n', d_status d0' = WaitForAction /\ d_bps d0' = bps' /\
+        forall fuel t e c, exists t' c',
+          session_w env (j + fuel) (wtick env st (cs ++ tail) d0 n) t e c =
+          session_w env fuel (wtick env st' tail d0' n') t' (e + N.of_nat k) c'
+  | (PEStopped kind code s k, _) =>
+      exists j, forall fuel t e c,
+        ends_like (session_w env (j + fuel) (wtick env st (cs ++ tail) d0 n) t e c) kind code s (e + N.of_nat k)
+  | (PEFuel, _) => True
+  end.
+Proof.
+  induction cs as [|c cs IH]; intros tail d0 st n Hall Hw.
+  - cbn [ref_script2 app]. exists 0%nat, d0, n. split; [exact Hw|]. split; [reflexivity|].
+    intros fuel t e c. exists t, c. cbn [plus N.of_nat]. rewrite N.add_0_r. reflexivity.
+  - inversion Hall as [|c' cs' Hc Hcs]; subst c' cs'. cbn [ref_script2 app].
+    destruct Hc as [Hc|Hc].
+    2:{ (* a breakpoint command: in place *)
+      destruct (bpcmd_in_place env c d0 st Hc Hw) as (dr & bps' & Hrb & Hrc & Hsr & Hbr & Hcost).
+      rewrite Hrb.
+      assert (Hwl : forall s, wtick env st (c :: s) d0 n = wtick env st s dr (n + 1)).
+      { intros s. unfold wtick. cbn [wait_loop]. rewrite Hrc. unfold dispatch_status. rewrite Hsr, Hcost. reflexivity. }
+      specialize (IH tail dr st (n + 1) Hcs Hsr). rewrite Hbr in IH. rewrite Hwl. exact IH. }
+    rewrite (resuming_no_bps st (d_bps d0) c Hc).
+    destruct (resuming_cases env (d_bps d0) fuelR c d0 st Hc Hw) as [(Hr & dr & Hrc & Hsr & Hbr & Hcost)|(m & Hm & Hh & Hcost)].
+    + (* refused in place *)
+      rewrite Hr.
+      assert (Hwl : forall s, wtick env st (c :: s) d0 n = wtick env st s dr (n + 1)).
+      { intros s. unfold wtick. cbn [wait_loop]. rewrite Hrc. unfold dispatch_status. rewrite Hsr, Hcost. reflexivity. }
+      specialize (IH tail dr st (n + 1) Hcs Hsr). rewrite Hbr in IH. rewrite Hwl.
+      destruct (ref_script2 (e_feat env) fuelR cs (d_bps d0) st) as [[st' k|kind code s k|] b]; rewrite ?shift_0; cbn [shift]; exact IH.
+    + (* armed *)
+      pose proof (run_command_arms env c d0 st m Hm Hh) as Hrc.
+      set (d1 := set_status (set_icount d0 0) (status_of m)) in *.
+      assert (Hs1 : d_status d1 = status_of m) by reflexivity.
+      destruct (armed_mode_next _ _ _ _ Hm) as (m' & Hn).
+      pose proof (dispatch_mode d1 st m Hs1) as K. rewrite Hn in K. destruct K as (d2 & Hd & Hb2 & Hs2).
+      assert (Hbd2 : d_bps d2 = d_bps d0) by (rewrite Hb2; reflexivity).
+      unfold ref_cmd. rewrite Hm, Hh. cbn [orb].
+      destruct (oob st) eqn:Ho.
+      * rewrite (wtick_outside env c (cs ++ tail) d0 st d1 d2 n Hrc Hd Hh Ho).
+        destruct (parked_tick env d2 st (pause_parks env d2 st (or_intror (or_intror Ho)))) as (d3 & Hs3 & Hb3 & Ht3).
+        specialize (IH tail d3 st 0 Hcs Hs3). rewrite Hb3, Hbd2 in IH.
+        destruct (ref_script2 (e_feat env) fuelR cs (d_bps d0) st) as [[st' k|kind code s k|] b]; cbn [shift plus]; [| |exact I].
+        -- destruct IH as (j & d0' & n' & H1 & H2 & H3). exists (S j), d0', n'. split; [exact H1|]. split; [exact H2|].
+           intros fuel t e c0. cbn [session_w plus]. rewrite session_S, Ht3.
+           destruct (H3 fuel (t + 1) (e + 0) (c0 + (n + cmd_cost c))) as (t' & c' & E). exists t', c'.
+           rewrite E. f_equal. lia.
+        -- destruct IH as (j & H3). exists (S j). intros fuel t e c0. cbn [session_w plus]. rewrite session_S, Ht3.
+           replace (e + N.of_nat k) with (e + 0 + N.of_nat k) by lia. apply H3.
+      * rewrite Hn.
+        assert (Hr : runnable st) by exact Ho.
+        pose proof (wtick_resume env c (cs ++ tail) d0 st d1 d2 n Hrc Hd Hh Hr) as T.
+        destruct (vm_step (e_feat env) st) as [st1|cd s|s|] eqn:Ev.
+        -- set (d3 := set_icount d2 (d_icount d2 + 1)) in *.
+           assert (Hs3 : d_status d3 = status_of m') by exact Hs2.
+           assert (Hb3 : d_bps d3 = d_bps d0) by exact Hbd2.
+           pose proof (ref_at_session env (cs ++ tail) fuelR m' st1 1 d3 Hs3) as R. rewrite Hb3 in R.
+           destruct (ref_at (e_feat env) (d_bps d0) fuelR m' st1 1) as [st' k'|kind code s k'|]; [| |exact I].
+           ++ destruct R as (Hk & d' & Hbd' & Hp & He).
+              destruct (parked_tick env d' st' Hp) as (d4 & Hs4 & Hb4 & Ht4).
+              specialize (IH tail d4 st' 0 Hcs Hs4). rewrite Hb4, Hbd' in IH.
+              destruct (ref_script2 (e_feat env) fuelR cs (d_bps d0) st') as [[st'' k''|kind code s k''|] b]; cbn [shift]; [| |exact I].
+              ** destruct IH as (j & d0' & n' & H1 & H2 & H3).
+                 exists ((k' - 1) + S j)%nat, d0', n'. split; [exact H1|]. split; [exact H2|].
+                 intros fuel t e c0. rewrite T. cbn [session_w]. rewrite <- Nat.add_assoc, He. cbn [plus].
+                 rewrite session_S, Ht4.
+                 destruct (H3 fuel (t + 1 + N.of_nat (k' - 1)) (e + 1 + N.of_nat (k' - 1)) (c0 + (n + cmd_cost c))) as (t' & c' & E).
+                 exists t', c'. rewrite E. f_equal. lia.
+              ** destruct IH as (j & H3). exists ((k' - 1) + S j)%nat.
+                 intros fuel t e c0. rewrite T. cbn [session_w]. rewrite <- Nat.add_assoc, He. cbn [plus].
+                 rewrite session_S, Ht4.
+                 replace (e + N.of_nat (k' + k'')) with (e + 1 + N.of_nat (k' - 1) + N.of_nat k'') by lia. apply H3.
+           ++ destruct R as (Hk & He). exists (k' - 1)%nat.
+              intros fuel t e c0. rewrite T. cbn [session_w].
+              replace (e + N.of_nat k') with (e + 1 + N.of_nat (k' - 1)) by lia. apply He.
+        -- exists 0%nat. intros fuel t e c0. rewrite T. cbn [session_w]. repeat split.
+        -- exists 0%nat. intros fuel t e c0. rewrite T. cbn [session_w]. repeat split.
+        -- exists 0%nat. intros fuel t e c0. rewrite T. cbn [session_w]. repeat split.
+Qed.
+
+(** The property's scripts — stepping commands and `break add/remove a` in any order — followed by
+    `exit`: the session ends at the reference's state after the reference's number of instructions,
+    with the reference's breakpoint set. *)
+Theorem script2_exit env fuelR cs d st :
+  Forall stepping cs -> d_status d = WaitForAction ->
+  match ref_script2 (e_feat env) fuelR cs (d_bps d) st with
+  | (PEPaused st' k, bps') =>
+      exists j, forall fuel,
+        let r := session env (j + fuel) (cs ++ [CExit]) d st 0 0 0 in
+        ends_like r 7 0 st' (N.of_nat k) /\ match sr_dbg r with Some d' => d_bps d' = bps' | None => False end
+  | (PEStopped kind code s k, _) =>
+      exists j, forall fuel, ends_like (session env (j + fuel) (cs ++ [CExit]) d st 0 0 0) kind code s (N.of_nat k)
+  | (PEFuel, _) => True
+  end.
+Proof.
+  intros Hall Hw.
+  destruct (parked_tick env d st (wait_parked env d st Hw)) as (d0 & Hs0 & Hb0 & Ht0).
+  pose proof (script2_session env fuelR cs [CExit] d0 st 0 Hall Hs0) as K. rewrite Hb0 in K.
+  destruct (ref_script2 (e_feat env) fuelR cs (d_bps d) st) as [[st' k|kind code s k|] b]; [| |exact I].
+  - destruct K as (j & d0' & n' & H1 & H2 & H3). exists (S j). intros fuel. cbn [plus]. cbv zeta.
+    rewrite session_S, Ht0. destruct (H3 fuel 0 0 0) as (t' & c' & E). rewrite E.
+    unfold wtick. cbn [wait_loop run_command finish_tick session_w sr_dbg]. split; [|exact H2].
+    repeat split. cbn [sr_execs]. lia.
+  - destruct K as (j & H3). exists (S j). intros fuel. cbn [plus]. rewrite session_S, Ht0.
+    replace (N.of_nat k) with (0 + N.of_nat k) by lia. apply H3.
+Qed.
+
+(* ------------------------------------------------------------------ *)
 (** * Non-vacuity *)
 From Lace Require Examples.
 
@@ -378,4 +540,19 @@ Proof. vm_compute. repeat split. Qed.
 Lemma ex_steps_session :
   let r := session Examples.ex_env 20 (ex_steps ++ [CExit]) (Examples.ex_dbg []) Examples.ex_state 0 0 0 in
   sr_kind r = 7 /\ sr_execs r = 3 /\ R (sr_state r) 0 = 3.
+Proof. vm_compute. repeat split. Qed.
+
+(** With breakpoint commands: `break add x3002; continue; break remove x3002; step into 5`. *)
+Definition ex_steps2 : list cmd := [CBreakAdd (MAddr 12290); CContinue; CBreakRemove (MAddr 12290); CStepInto 5].
+
+Lemma ex_steps2_stepping : Forall stepping ex_steps2.
+Proof. repeat constructor; (right; exact I) || (left; exact I). Qed.
+
+Lemma ex_steps2_ref :
+  match ref_script2 false 20 [CBreakAdd (MAddr 12290); CContinue] [] Examples.ex_state,
+        ref_script2 false 20 ex_steps2 [] Examples.ex_state with
+  | (PEPaused s1 k1, b1), (PEPaused s2 k2, b2) =>
+      k1 = 2%nat /\ s_pc s1 = 12290 /\ b1 = [(12290, false)] /\ k2 = 3%nat /\ at_halt s2 = true /\ b2 = []
+  | _, _ => False
+  end.
 Proof. vm_compute. repeat split. Qed.
